@@ -245,8 +245,10 @@ theorem loop_condition_runs_once_more (fns : List FnDef) (c : Expr) (b : Block) 
   Enum constructors `E.V(args…)`: every argument lowered and materialised
   before the next, then the fields stored. Script-function calls: arguments as
   for host calls, then the callee's structured MIR runs from a store holding
-  its parameters (recursion allowed).
-  Missing from the model (and so from the theorem): `for`, lists, f-strings; a `match` whose patterns
+  its parameters (recursion allowed). F-strings: the parts converted
+  (`to_string`) and appended one after the other.
+  Missing from the model (and so from the theorem): `for` and list literals
+  (lists are shared handles: the model has no heap); a `match` whose patterns
   name a variant the examinee's type does not have; `drop` instructions and the `stack_slots` bookkeeping; the
   passage from structured MIR to the block/label CFG. -/
 
@@ -452,6 +454,11 @@ def demoProg : List FnDef :=
 example : (lowerProg demoProg).isSome = true := by decide
 example : (evalBlock demoProg 40 [(1, .int 5)] (⟨[1], .last (.bin .add (.call 0 (.cons (emitVar 2 1) .nil)) (.call 0 (.cons (.lit (.int 7)) .nil)))⟩ : FnDef).body).tr
     = [⟨0, [.int 2, .int 5]⟩, ⟨0, [.int 1, .int 5]⟩, ⟨0, [.int 1, .int 7]⟩] := by decide
+-- … f-string parts left to right: `f"a{emit(1, x0)}-{emit_b(2, true)}"`
+def demoFn6 : FnDef :=
+  ⟨[0], .last (.fstr (.str "a" (.expr (emitVar 1 0) (.str "-" (.expr (emitB 2 true) .nil)))))⟩
+example : (lowerFn demoFn6).isSome = true := by decide
+example : (evalBlock [] 40 [(0, .int 4)] demoFn6.body).tr = [⟨0, [.int 1, .int 4]⟩, ⟨1, [.int 2, .bool true]⟩] := by decide
 end nonvacuity
 
 end RotoV.C08
